@@ -763,10 +763,38 @@ func (x *xb) perCornerLoop() {
 					}
 				}
 			}
+			// an early exit gives up this cell only: it must land inside the innermost loop around the per-corner
+			// loop (that cell loop's continuation), not further out (the rest of the row / block would be dropped)
+			var parent *ssau.Loop
+			for _, l := range ssau.Loops(st.Store.Parent()) {
+				if l != loop && l.Blocks[loop.Header] && len(l.Blocks) > len(loop.Blocks) && (parent == nil || len(l.Blocks) < len(parent.Blocks)) {
+					parent = l
+				}
+			}
+			if parent != nil {
+				far := false
+				for b := range loop.Blocks {
+					for _, w := range b.Succs {
+						if !loop.Blocks[w] && b != loop.Header && !parent.Blocks[exitLanding(b, w)] {
+							far = true
+						}
+					}
+				}
+				for _, w := range s.m.skipLanding[loop.Header] {
+					if !parent.Blocks[w] {
+						far = true
+					}
+				}
+				if far {
+					s.violate("XB-6", "perCornerLoop:skipsOneCell", st.Store.Pos(), "when a neighbouring block is missing the early exit of the per-corner loop leaves more than the current cell (it jumps out of the innermost cell loop): the remaining cells of the row / block are never triangulated and the surface is left open there")
+				} else {
+					s.hold("XB-6", "perCornerLoop:skipsOneCell", st.Store.Pos(), "early exits of the per-corner loop stay inside the innermost cell loop: only the cell with the missing neighbour is skipped")
+				}
+			}
 			switch {
 			case n == 0:
 			case okAll:
-				s.hold("XB-6", "perCornerLoop:completes", st.Store.Pos(), fmt.Sprintf("%d reads of the per-corner blocks / indices are reachable only after the loop visited all corners (early exits set a flag that skips the cell)", n))
+				s.hold("XB-6", "perCornerLoop:completes", st.Store.Pos(), fmt.Sprintf("%d reads of the per-corner blocks / indices are reachable only after the loop visited all corners (early exits leave the cell: a flag tested after the loop, or a jump that cannot reach the reads without re-entering the loop)", n))
 			default:
 				s.violate("XB-6", "perCornerLoop:completes", st.Store.Pos(), "the per-corner blocks / indices are read although the loop that fills them may have stopped early (a neighbouring block is missing): the cell is triangulated from stale or default entries instead of being skipped")
 			}
